@@ -150,6 +150,19 @@ def floatConvSound (s : Scalar) (k : Kind) (a : Action) : Bool :=
 def armSoundOutT (s : Scalar) (k : Kind) (a : Action) : Bool :=
   if s == .time then timeSoundOut k a else (armSoundOut s k a || floatConvSound s k a)
 
+/-- **response-level arm test.**  With `nullOnErr` (the leaf branch of `resolve` drops the value when
+`CoerceOut` returns an error) a `…Keep` arm is sound when its *success* path is: Int64 ← string
+(`ParseInt(s, 10, 64)` is the value itself), Boolean ← string, Time ← string.  Int ← string still
+truncates silently beyond 32 bits and Float ← string still lets "Inf"/"NaN" through, so those stay unsound. -/
+def armSoundOutR (nullOnErr : Bool) (s : Scalar) (k : Kind) (a : Action) : Bool :=
+  armSoundOutT s k a ||
+  (nullOnErr && k == .str &&
+    (match s, a with
+     | .int64, .parseIntKeep .i64 => true
+     | .boolean, .parseBoolKeep => true
+     | .time, .timeParseKeep => true
+     | _, _ => false))
+
 /-- what the theorems assume of the Go runtime's floats: converting any Go integer gives a finite
 float64, and a finite float32 after rounding (|n| < 2^64 ≪ float32 max) -/
 structure ExtLaws (ext : Ext F) : Prop where
@@ -161,6 +174,10 @@ structure ExtLaws (ext : Ext F) : Prop where
 
 def unsoundOut (s : Scalar) (tbl : Table) : List (Kind × Action) :=
   tbl.arms.filter (fun p => !armSoundOutT s p.1 p.2)
+
+/-- arms unsound at the response level -/
+def unsoundOutR (nullOnErr : Bool) (s : Scalar) (tbl : Table) : List (Kind × Action) :=
+  tbl.arms.filter (fun p => !armSoundOutR nullOnErr s p.1 p.2)
 
 def armSoundInT (s : Scalar) (k : Kind) (a : Action) : Bool := armSoundIn s k a || floatConvSound s k a
 
